@@ -40,13 +40,14 @@ CLAIMED = {
             "whole from dd_dtw.c (Gen_cwpsk.v, tools/cfun.py), run without a bound on any buffer, leaves in every "
             "slot of the compact array the specification cell the layout assigns to it, no access out of range, and "
             "run for its value returns the DTW value of the specification - corner read or end-of-series scans, sqrt "
-            "pass included (C04_c_wps_kernel_returns_the_dtw_value; CWpsCanon/Kernel/Tie/Value/Spec/Final.v); dtw.warping_paths is compared with the as-written model and with the extracted "
+            "pass included (C04_c_wps_kernel_returns_the_dtw_value), the Euclidean twin likewise "
+            "(C04_c_wps_euclidean_kernel_as_written; CWpsCanon/Kernel/Tie/Value/Spec/Final.v + *Eu.v); dtw.warping_paths is compared with the as-written model and with the extracted "
             "regenerated fill on every cell, the C full matrix, "
             "compact+expand and slice expansion cell-wise with the specification model applying the property's "
             "two freedoms",
             "a model of the C fill loops as written (regenerated geometry and recurrence text, CFillSim.v) is proved to "
             "store the specification matrix through the layout, and fill and expand address the same slot (CFill.v, "
-            "CExpand.v); the bounded run (pruning by max_dist), the Euclidean twin and the -1 marks of "
+            "CExpand.v); the bounded run (pruning by max_dist) and the -1 marks of "
             "the C kernels are regenerated and compared with the compiled kernels cell by cell (site c.wpsk) but not "
             "proved; float rounding is correspondence only; border-cell finding "
             "F23 recorded",
